@@ -12,8 +12,8 @@ fn stub_format(_: std::fmt::Arguments<'_>) -> String { String::new() }
 fn spec_percent_encode(input: &str) -> std::borrow::Cow<'_, str> {
     const HEX: &[u8; 16] = b"0123456789ABCDEF";
     let b = input.as_bytes();
-    assert!(b.len() <= 4, "harness bound of the percent-encoding stub");
-    let mut out = [0u8; 12];
+    assert!(b.len() <= 8, "harness bound of the percent-encoding stub");
+    let mut out = [0u8; 24];
     let (mut n, mut i, mut any) = (0usize, 0usize, false);
     while i < b.len() {
         let c = b[i];
@@ -76,3 +76,26 @@ fn setcookie_body(k: usize) {
     kani::cover!(true);
 }
 //@chunks 15 c11_setcookie_roundtrip setcookie_body #[kani::proof] #[kani::unwind(40)] #[kani::stub(alloc::fmt::format, stub_format)] #[kani::stub(ohkami_lib::percent_encode, spec_percent_encode)] #[kani::stub(ohkami_lib::percent_decode_utf8, spec_percent_decode_utf8)] #[kani::stub(std::str::from_utf8, stub_from_utf8)]
+
+/// the same round trip on ENUMERATED CONCRETE values (the symbolic shapes above need more than 20 min each under CBMC and are not registered):
+/// plain, a literal percent escape, space + semicolon, double quote, non-ASCII, base64 padding, empty
+fn setcookie_concrete_body(k: usize) {
+    const VALUES: [&str; 7] = ["abc123", "50%2Foff", "a b;c", "\"q\"", "\u{e9}", "YWJj==", ""];
+    let value = VALUES[k];
+    let b = SetCookieBuilder::new("sid", value).Path("/").HttpOnly().SameSiteLax();
+    let line: &'static str = Box::leak(b.build().into_boxed_str());
+    let lb = line.as_bytes();
+    assert!(lb.len() >= 4 && lb[0] == b's' && lb[1] == b'i' && lb[2] == b'd' && lb[3] == b'=', "Set-Cookie: the line starts with the cookie-pair `name=`");
+    let mut i = 4;
+    while i < lb.len() && lb[i] != b';' { assert!(is_cookie_octet(lb[i]), "Set-Cookie: the emitted value consists of RFC 6265 cookie-octets only"); i += 1; }
+    let parsed = SetCookie::from_raw(line);
+    assert!(parsed.is_ok(), "Set-Cookie: the emitted line parses");
+    let p = parsed.unwrap();
+    let (pn, pv) = p.Cookie();
+    assert!(eqb(pn.as_bytes(), b"sid"), "Set-Cookie: name round-trips");
+    assert!(eqb(pv.as_bytes(), value.as_bytes()), "Set-Cookie: the value parses back to the value given to the builder");
+    assert!(matches!(p.Path(), Some("/")) && p.HttpOnly() == Some(true) && matches!(p.SameSite(), Some("Lax")) && p.Secure().is_none() && p.MaxAge().is_none() && p.Domain().is_none() && p.Expires().is_none(),
+        "Set-Cookie: every directive given to the builder parses back, and no other directive appears");
+    std::mem::forget(p);
+}
+//@chunks 7 c11_setcookie_concrete setcookie_concrete_body #[kani::proof] #[kani::unwind(48)] #[kani::stub(alloc::fmt::format, stub_format)] #[kani::stub(ohkami_lib::percent_encode, spec_percent_encode)] #[kani::stub(ohkami_lib::percent_decode_utf8, spec_percent_decode_utf8)] #[kani::stub(std::str::from_utf8, stub_from_utf8)]
